@@ -3,7 +3,7 @@ from . import build
 
 
 def run(chk, name, n_quick, n_thorough, kw=None, args=(), quick_cfgs=("san",), thorough_cfgs=("san", "plain"),
-        plain_factor=1.0, timeout=3600, env=None):
+        plain_factor=1.0, timeout=3600, env=None, crash_key=None):
     kw = kw or {}
     cfgs = quick_cfgs if chk.tier == "quick" else thorough_cfgs
     n = int((n_quick if chk.tier == "quick" else n_thorough) * getattr(chk, "scale", 1.0))
@@ -11,7 +11,7 @@ def run(chk, name, n_quick, n_thorough, kw=None, args=(), quick_cfgs=("san",), t
     for cfg in cfgs:
         b = chk.build(build.harness, cfg, name, **kw)
         nn = int(n * (plain_factor if cfg == "plain" else 1.0))
-        chk.run_workers(b, list(args), nn, cfg=cfg, tag=cfg, timeout=timeout, env=env)
+        chk.run_workers(b, list(args), nn, cfg=cfg, tag=cfg, timeout=timeout, env=env, crash_key=crash_key)
         total += nn
         chk.builds[cfg] = b
     return total
